@@ -702,7 +702,9 @@ def _r345(repo, L, ia, find: Func):
                 if h == Lin.atom("len(idx)"):
                     return True
                 ts = dict(h.t)
-                return h.c == 0 and len(ts) == 1 and all(isinstance(a, str) and a.startswith("len(") and ("index" in a or "idx" in a) and k_ == 1 for a, k_ in ts.items())
+                # len(<the local that holds the scaffold's row-end index>), whatever that local is called
+                index_locals = {t_.id for n_ in walk_shallow(find.node) if isinstance(n_, ast.Assign) and "_scaffold_index" in norm(n_.value) for t_ in n_.targets if isinstance(t_, ast.Name)}
+                return h.c == 0 and len(ts) == 1 and all(isinstance(a, str) and a.startswith("len(") and ("index" in a or "idx" in a or a[4:-1] in index_locals) and k_ == 1 for a, k_ in ts.items())
 
             ok_rng = lo == ovr + 1 and step == Lin.const(1) and is_len_of_index(hi)
             rng_txt = "range(ovr+1, len(idx))"
